@@ -209,6 +209,80 @@ RAW_FILES = [("empty", ""), ("whitespace", " \n\t"), ("null", "null"), ("array",
              ("dup", '{"a": "x", "a": "y"}'), ("dup-trim", '{"a": "x", " a": "y"}'), ("key-types", '{"a": {"b": {"c": [["x", 0], ["y"]]}}, "a2": {"b": 1}}')]
 
 
+# ------------------------------------------------------------------ `inherits` tables of every shape
+LOCS6 = ["aa", "bb", "cc", "dd", "ee", "ff"]
+
+
+def inherits_shapes():
+    """(name, locales other than the default `en`, table): chains, forks, cycles through the start, and RHO shapes: a tail
+    of 1-3 locales leading into a loop of 1-3 locales (1 = self loop) that does not contain the start"""
+    out = []
+    for k in (2, 3, 4, 5):
+        ls = LOCS6[:k]
+        out.append(("chain-%d" % k, ls, {ls[i]: ls[i + 1] for i in range(k - 1)}))
+        out.append(("chain-%d-to-default" % k, ls, dict({ls[i]: ls[i + 1] for i in range(k - 1)}, **{ls[-1]: "en"})))
+    out.append(("fork", LOCS6[:4], {"bb": "aa", "cc": "aa", "dd": "bb"}))
+    out.append(("fork-wide", LOCS6[:5], {"bb": "aa", "cc": "aa", "dd": "aa", "ee": "dd"}))
+    for k in (2, 3, 4, 5):
+        ls = LOCS6[:k]
+        out.append(("cycle-%d" % k, ls, {ls[i]: ls[(i + 1) % k] for i in range(k)}))
+    out.append(("self-loop", LOCS6[:3], {"aa": "aa", "bb": "aa"}))
+    for tail in (1, 2, 3):
+        for loop in (1, 2, 3):
+            ls = LOCS6[:tail + loop]
+            t = {ls[i]: ls[i + 1] for i in range(tail)}
+            lp = ls[tail:]
+            t.update({lp[i]: lp[(i + 1) % loop] for i in range(loop)})
+            out.append(("rho-tail%d-loop%d" % (tail, loop), ls, t))
+    out.append(("two-rhos", LOCS6, {"aa": "bb", "bb": "cc", "cc": "bb", "dd": "ee", "ee": "ff", "ff": "ff"}))
+    return out
+
+
+INHERIT_KEYS = {"lit": "plain", "interp": "hello {{ name }}", "num": 5, "sub": {"deep": "d {{ x }}", "flat": "f"},
+                "r": [["zero", 0], ["{{ count }}", "_"]], "items_one": "one", "items_other": "{{ count }} many"}
+
+
+def inherits_project(name, ls, table, pattern, rng=None):
+    """pattern: "absent" / "null" (every key in every non-default locale), "one" (present in exactly one locale of the table,
+    a different one per key), "random" """
+    en = copy.deepcopy(INHERIT_KEYS)
+    content = {"en": en}
+    flat = ["lit", "interp", "num", "r"]
+    for i, l in enumerate(ls):
+        t = {}
+        for j, k in enumerate(flat):
+            mode = pattern
+            if pattern == "one":
+                mode = "present" if (j % len(ls)) == i else ("null" if (i + j) % 2 else "absent")
+            elif pattern == "random":
+                mode = rng.choice(["absent", "null", "present", "absent", "null"])
+            if mode == "null":
+                t[k] = None
+            elif mode == "present":
+                t[k] = copy.deepcopy(en[k]) if not isinstance(en[k], str) else en[k] + " (" + l + ")"
+        sub_mode = pattern if pattern in ("absent", "null") else ("null" if i % 2 else "absent") if pattern == "one" else rng.choice(["absent", "null", "partial"])
+        if sub_mode == "null":
+            t["sub"] = None
+        elif sub_mode == "partial":
+            t["sub"] = {"deep": None}
+        if pattern == "null":
+            t["items_one"], t["items_other"] = None, None
+        content[l] = t
+    files = {"locales/%s.json" % l: json.dumps(t, ensure_ascii=False) for l, t in content.items()}
+    extra = "inherits = { %s }\n" % ", ".join('%s = "%s"' % kv for kv in table.items())
+    return {"cls": "inherits:%s/%s" % (name, pattern), "cargo": cargo(locales=["en"] + ls, extra=extra), "files": files, "note": None}
+
+
+def random_inherits_project(rng):
+    n = rng.randint(3, 6)
+    ls = LOCS6[:n]
+    table = {}
+    for l in ls:
+        if rng.random() < 0.8:
+            table[l] = rng.choice(ls + ["en"])
+    return inherits_project("random", ls, table, rng.choice(["absent", "null", "one", "random", "random"]), rng)
+
+
 def deep_json(n, leaf='"x"'):
     return "".join('{"k":' for _ in range(n)) + leaf + "}" * n
 
@@ -265,6 +339,10 @@ def named_cases(rng):
     for nm, txt in CONFIGS:
         p = project("config:" + nm, b, cargo_text=txt)
         out.append(p)
+    # every inherits shape with keys absent / null in every locale of the table, or present in one of them
+    for nm, ls, table in inherits_shapes():
+        for pattern in ("absent", "null", "one"):
+            out.append(inherits_project(nm, ls, table, pattern))
     for nm, txt in RAW_FILES:
         p = project("file:" + nm, {"en": b["en"]}, cargo_text=cargo(locales=["en", "fr"]))
         p["files"]["locales/fr.json"] = txt
@@ -281,6 +359,8 @@ def named_cases(rng):
 
 
 def random_case(rng):
+    if rng.random() < 0.08:
+        return random_inherits_project(rng)
     p = random_flat_case(rng)
     if "content" in p and rng.random() < 0.5:
         return placed(p["cls"], p["content"], rng.choice(PLACEMENTS[1:]), p.get("note"))
